@@ -70,7 +70,8 @@ class SingleInstanceInferenceModel(L.LightningModule):
                 `(samples, nodes)`.
 
         """
-        # Network forward pass.
+        # Network forward pass (inference only: BatchNorm/Dropout must be in eval mode).
+        self.torch_model.eval()
         cms = self.torch_model(inputs["image"])
 
         peak_points, peak_vals = find_global_peaks(
